@@ -192,6 +192,10 @@ func (t Time) Equal(strict bool, time2 Time) bool {
 	}
 
 	for i, t1 := range t {
+		// non-strict compares only the shared states
+		if len(time2) <= i {
+			break
+		}
 		if t1 != time2[i] {
 			return false
 		}
@@ -227,8 +231,8 @@ func (t Time) Is(idxs []int) bool {
 	}
 
 	for _, idx := range idxs {
-		// -1 is not found or mach disposed
-		if idx == -1 {
+		// -1 is not found or mach disposed, out of bound is not active
+		if idx == -1 || idx >= len(t) {
 			return false
 		}
 		if !IsActiveTick(t[idx]) {
@@ -246,8 +250,8 @@ func (t Time) Not(idxs []int) bool {
 	}
 
 	for _, idx := range idxs {
-		// -1 is not found or mach disposed
-		if idx != -1 && IsActiveTick(t[idx]) {
+		// -1 is not found or mach disposed, out of bound is not active
+		if idx != -1 && idx < len(t) && IsActiveTick(t[idx]) {
 			return false
 		}
 	}
